@@ -67,6 +67,17 @@ func serviceRandom(fl *drv.Flags, rng *rand.Rand, w *chain.TraceWriter) {
 		if b < 2 {
 			n = 3 + rng.Intn(3)
 		}
+		// providers answer about half of what is asked of them
+		for _, a := range active {
+			if rng.Intn(2) == 0 {
+				rid := a.(string)
+				rec := reqs[rid].(chain.M)
+				ev := svcEvent("Respond", rec["provider"].(string))
+				ev["req"] = rid
+				ev["okres"] = rng.Intn(4) > 0
+				pending = append(pending, ev)
+			}
+		}
 		for j := 0; j < n; j++ {
 			u := pick(e.users)
 			x := rng.Intn(100)
@@ -84,18 +95,22 @@ func serviceRandom(fl *drv.Flags, rng *rand.Rand, w *chain.TraceWriter) {
 			case x < 14:
 				ev := svcEvent("Bind", pick(provs))
 				ev["svc"] = pick(defs)
-				ev["prov"] = pick(provs)
-				if rng.Intn(3) > 0 {
-					ev["prov"] = ev["who"]
+				ev["prov"] = ev["who"]
+				if rng.Intn(5) == 0 {
+					ev["prov"] = pick(provs)
 				}
 				setPricing(ev, now)
-				ev["amt"] = ev["price"].(int64)*e.cfg.minMult + int64(rng.Intn(6)) - 1
-				if rng.Intn(3) == 0 {
-					ev["amt"] = int64(rng.Intn(12))
+				need := ev["price"].(int64) * e.cfg.minMult
+				if need > 0 && need < e.cfg.minDep {
+					need = e.cfg.minDep
 				}
-				ev["qos"] = int64(rng.Intn(int(e.cfg.maxTimeout) + 2))
-				if rng.Intn(2) == 0 {
-					ev["qos"] = int64(1)
+				ev["amt"] = need + int64(rng.Intn(6))
+				if rng.Intn(4) == 0 {
+					ev["amt"] = need + int64(rng.Intn(3)) - 1
+				}
+				ev["qos"] = int64(1)
+				if rng.Intn(4) == 0 {
+					ev["qos"] = int64(rng.Intn(int(e.cfg.maxTimeout) + 2))
 				}
 				pending = append(pending, ev)
 			case x < 20:
@@ -141,27 +156,37 @@ func serviceRandom(fl *drv.Flags, rng *rand.Rand, w *chain.TraceWriter) {
 					ev["to"] = "blocked"
 				}
 				pending = append(pending, ev)
-			case x < 40 && len(ctxIDs) < maxCtx:
+			case x < 38 && len(ctxIDs) < maxCtx:
 				name := "Call"
 				if rng.Intn(4) == 0 {
 					name = "ModCall"
 				}
 				ev := svcEvent(name, u)
 				ev["svc"] = pick(defs)
+				if bs := chain.SortedKeys(bind); len(bs) > 0 && rng.Intn(6) > 0 {
+					ev["svc"] = pick(bs)
+				}
 				if rng.Intn(15) == 0 {
 					ev["svc"] = "nosuch"
 				}
-				k := 1 + rng.Intn(len(provs))
-				perm := rng.Perm(len(provs))[:k]
+				cand := provs
+				if row, ok := bind[ev["svc"].(string)].(chain.M); ok && len(row) > 0 && rng.Intn(5) > 0 {
+					cand = chain.SortedKeys(row)
+				}
+				k := 1 + rng.Intn(len(cand))
+				perm := rng.Perm(len(cand))[:k]
 				ps := []any{}
 				for _, i := range perm {
-					ps = append(ps, provs[i])
+					ps = append(ps, cand[i])
 				}
 				if rng.Intn(20) == 0 {
 					ps = append(ps, ps[0])
 				}
 				ev["provs"] = ps
-				ev["amt"] = int64(rng.Intn(10))
+				ev["amt"] = int64(4 + rng.Intn(9))
+				if rng.Intn(4) == 0 {
+					ev["amt"] = int64(rng.Intn(5))
+				}
 				ev["timeout"] = int64(1 + rng.Intn(3))
 				if rng.Intn(15) == 0 {
 					ev["timeout"] = e.cfg.maxTimeout + int64(rng.Intn(2))
@@ -183,7 +208,7 @@ func serviceRandom(fl *drv.Flags, rng *rand.Rand, w *chain.TraceWriter) {
 				}
 				pending = append(pending, ev)
 				ctxIDs = append(ctxIDs, "pending")
-			case x < 70 && len(active) > 0:
+			case x < 78 && len(active) > 0:
 				rid := active[rng.Intn(len(active))].(string)
 				rec := reqs[rid].(chain.M)
 				ev := svcEvent("Respond", rec["provider"].(string))
@@ -193,14 +218,14 @@ func serviceRandom(fl *drv.Flags, rng *rand.Rand, w *chain.TraceWriter) {
 				ev["req"] = rid
 				ev["okres"] = rng.Intn(4) > 0
 				pending = append(pending, ev)
-			case x < 74 && len(reqs) > 0:
+			case x < 81 && len(reqs) > 0:
 				// a request that may be answered / expired already
 				rid := pick(chain.SortedKeys(reqs))
 				rec := reqs[rid].(chain.M)
 				ev := svcEvent("Respond", rec["provider"].(string))
 				ev["req"] = rid
 				pending = append(pending, ev)
-			case x < 90 && len(ctxs) > 0:
+			case x < 94 && len(ctxs) > 0:
 				id := pick(chain.SortedKeys(ctxs))
 				cm := ctxs[id].(chain.M)
 				who := cm["consumer"].(string)
@@ -244,6 +269,8 @@ func serviceRandom(fl *drv.Flags, rng *rand.Rand, w *chain.TraceWriter) {
 					}
 				}
 				pending = append(pending, ev)
+			case x < 94:
+				continue
 			default:
 				earned := chain.SortedKeys(st["earned"].(chain.M))
 				owner := st["owner"].(chain.M)
